@@ -114,8 +114,15 @@ def check_triple(case):
                     parent, canon = f, None        # every spelling is a path from the field
                 else:
                     parent, canon = getattr(f, cname)[0] if len(getattr(f, cname)) else f.add_component(cname), sname
-        # write
-        setattr(parent, A, val)
+        # write: by assignment, or - when asked - by creating the child with add_<child>(spelling) and valuing it
+        if case.get('via_add') and level in ('field', 'component') or (case.get('via_add') and level == 'subcomponent' and case['via'] == 'component'):
+            adder = {'Segment': 'add_field', 'Field': 'add_component', 'Component': 'add_subcomponent'}[type(parent).__name__]
+            child = getattr(parent, adder)(A)
+            if child.name != canon:
+                out.append((sig, '%s(%r) created a child named %r, expected %r' % (adder, A, child.name, canon)))
+            child.value = val
+        else:
+            setattr(parent, A, val)
         got = seg.to_er7()
         if got != exp:
             out.append((sig, 'write via %r: encoded %r, expected %r' % (A, got, exp)))
@@ -222,6 +229,13 @@ def _spellings(name, longname, cls, rnd, paths=()):
 
 
 def _emit(acc, case, nontrivial):
+    if case.get('kind') == 'triple' and case.get('sigkey', '').split('>')[0].split(':')[-1] in ('name', 'long') and \
+            not (case['level'] == 'subcomponent' and case.get('via') == 'field-path') and (hash(case['A']) + len(case['fname'])) % 3 == 0:
+        case = dict(case, via_add=True, sigkey=case['sigkey'] + ':add')
+    _emit2(acc, case, nontrivial)
+
+
+def _emit2(acc, case, nontrivial):
     for sig, detail in check(case):
         acc.violation(sig, case, detail)
     acc.case(None, nontrivial, sample=case, label=case.get('level', case['kind']), enumerated=True)
